@@ -244,6 +244,12 @@ Definition track (anc : N -> N -> bool) (v : jview) (n : N) (tracked : bool) : j
     set_remote_bookmark v1 n (mk_rref (r_target old) true)
   else set_remote_bookmark v n (mk_rref (r_target old) false).
 
+Fixpoint nodupb (l : list N) : bool :=
+  match l with
+  | [] => true
+  | x :: t => negb (mem N.eqb x t) && nodupb t
+  end.
+
 Fixpoint replay (anc : N -> N -> bool) (auto : bool) (names : list N) (steps : list pstep)
   (w : world) : bool :=
   match steps with
@@ -261,7 +267,8 @@ Fixpoint replay (anc : N -> N -> bool) (auto : bool) (names : list N) (steps : l
   | Push ns pre post pushed rejected unexported :: r =>
       let q := push git_srv (w_view w) (w_remote w) (w_backing w) ns in
       let w' := mk_world (q_view q) (q_remote q) (q_backing q) in
-      psnap_names_ok names pre && psnap_names_ok names post
+      nodupb ns (* a push considers each bookmark once *)
+      && psnap_names_ok names pre && psnap_names_ok names post
       && world_eqb_on names w pre && world_eqb_on names w' post
       && list_eqb N.eqb (q_pushed q) pushed && list_eqb N.eqb (q_rejected q) rejected
       && (N.of_nat (length (q_unexported q)) =? unexported)
